@@ -452,6 +452,46 @@ func exRel(a kv) string {
 	return fmt.Sprintf("run=%s good=%s bad=%s", run, exB01(exCountMarker(good)), exB01(exExists(filepath.Join(dir, "bad"))))
 }
 
+// exBarePar: several goroutines (a cmd sensor's monitor, cmd fans' controllers, the RPM monitors) call commands that are
+// configured as BARE names, found through $PATH, at the same time; some names are called for the first time while others
+// are under way. Every call comes back with its script's output (seed C19l: look-up results cached in an unguarded map).
+func exBarePar(a kv) string {
+	dir := execCaseDir()
+	defer os.RemoveAll(dir)
+	names, workers, rounds := a.int("names", 48), a.int("workers", 8), a.int("rounds", 3)
+	bin := filepath.Join(dir, "pbin")
+	_ = os.MkdirAll(bin, 0o755)
+	for i := 0; i < names; i++ {
+		p := filepath.Join(bin, fmt.Sprintf("vcmd%d-%d", execCounter, i))
+		if err := os.WriteFile(p, []byte("#!/bin/sh\necho 7\n"), 0o755); err != nil {
+			panic(err)
+		}
+		exSetStat(p, 0, 0, 0o755)
+	}
+	oldPath := os.Getenv("PATH")
+	_ = os.Setenv("PATH", bin+":"+oldPath)
+	defer func() { _ = os.Setenv("PATH", oldPath) }()
+	var wg sync.WaitGroup
+	var fails, panics int64
+	for w := 0; w < workers; w++ {
+		wg.Add(1)
+		go func(w int) {
+			defer wg.Done()
+			for k := 0; k < rounds*names/workers; k++ {
+				i := (w*7 + k*workers + k/3) % names
+				r := exRunSafe(fmt.Sprintf("vcmd%d-%d", execCounter, i), nil, 5*time.Second)
+				if strings.HasPrefix(r, "panic") {
+					atomic.AddInt64(&panics, 1)
+				} else if !strings.HasPrefix(r, "ok:7") {
+					atomic.AddInt64(&fails, 1)
+				}
+			}
+		}(w)
+	}
+	wg.Wait()
+	return fmt.Sprintf("ok fails=%d panics=%d", fails, panics)
+}
+
 func exDangling(a kv) string {
 	dir := execCaseDir()
 	defer os.RemoveAll(dir)
@@ -860,6 +900,8 @@ func init() {
 			return exStatRace(a)
 		case "ex.run":
 			return exRun(a)
+		case "ex.barepar":
+			return exBarePar(a)
 		case "ex.mix":
 			return exMix(a)
 		case "ex.busyhold":
